@@ -632,7 +632,7 @@ impl core::fmt::Display for DisplayBuffer {
 }
 
 #[derive(Copy, Clone, Default, Debug)]
-struct NullFormatter(&'static str);
+pub(crate) struct NullFormatter(pub(crate) &'static str);
 
 impl core::fmt::Display for NullFormatter {
     #[inline]
